@@ -70,6 +70,113 @@ func sameAsDecoded(t *VT, d any) string {
 	}
 }
 
+// observedSame: the decoded document against the structure the OBSERVERS of the value show (lists by Iterate, maps by Iter,
+// scalars by ToString) - for values built by the library, whose map representations are not those of the value trees
+func observedSame(v value.Value, d any) string {
+	st := funcGen.NewEmptyStack[value.Value]()
+	if l, ok := v.ToList(); ok {
+		arr, isArr := d.([]any)
+		if !isArr {
+			return "list did not decode to an array"
+		}
+		i := 0
+		for it, err := range l.Iterate(st) {
+			if err != nil {
+				return "list fails: " + err.Error()
+			}
+			if i >= len(arr) {
+				return "array shorter than the list"
+			}
+			if m := observedSame(it, arr[i]); m != "" {
+				return m
+			}
+			i++
+		}
+		if i != len(arr) {
+			return "array longer than the list"
+		}
+		return ""
+	}
+	if m, ok := v.ToMap(); ok {
+		obj, isObj := d.(map[string]any)
+		if !isObj {
+			return "map did not decode to an object"
+		}
+		n := 0
+		msg := ""
+		m.Iter(func(k string, mv value.Value) bool {
+			n++
+			dv, has := obj[k]
+			if !has {
+				msg = fmt.Sprintf("key %q (shown by Iter) missing after decoding", k)
+				return false
+			}
+			if x := observedSame(mv, dv); x != "" {
+				msg = x
+				return false
+			}
+			return true
+		})
+		if msg != "" {
+			return msg
+		}
+		if n != len(obj) {
+			return fmt.Sprintf("object has %d keys, Iter shows %d", len(obj), n)
+		}
+		return ""
+	}
+	want, err := v.ToString(st)
+	if err != nil {
+		return "scalar has no text: " + err.Error()
+	}
+	got, isStr := d.(string)
+	if !isStr {
+		return "scalar did not decode to a string"
+	}
+	if got != want {
+		return fmt.Sprintf("scalar text changed: %q became %q", want, got)
+	}
+	return ""
+}
+
+// c17LibraryValues: values built by the library itself (binnings with their bin descriptions, groups, minMax, windows,
+// regression and interpolation results where they are data), exported and decoded
+func c17LibraryValues(c *Ctx) {
+	fg := value.New()
+	for _, src := range []string{
+		"[0.5, 1.5, 2.5, 0 - 3].binning(0, 1, 3, x -> x, x -> 1)", "[0.5, 1.5, 2.5].binning(1, 1, 1, x -> x, x -> 1).descr", "[[0.5, 0.5], [1.5, 2.5]].binning2d(0, 1, 2, 0, 1, 3, x -> x[0], x -> x[1], x -> 1)",
+		"[[0.5, 0.5], [1.5, 2.5]].binning2d(0, 1, 2, 0, 1, 3, x -> x[0], x -> x[1], x -> 1).values", "[3, 1, 2].minMax(e -> e)", "[1, 2, 3, 4].groupByInt(e -> e % 2)", "[\"a\", \"bb\", \"c\"].groupByString(e -> e.len().string())",
+		"[1, 2, 3, 4].movingWindow(e -> e)", "numbers(5).combineN(2, w -> w)", "[1, 2, 3].multiUse({s: l -> l.sum(), m: l -> l.map(e -> e * 2)})", "{a: 1}.put(\"b\", [1, {c: 2}]).list()", "{a: 1, b: 2}.list()",
+		"[{a: 1}, {a: 2}].map(e -> e.put(\"z\", e.a))", "[1, 2, 3].number((i, e) -> {idx: i, val: e})", "[1, 2, 3].fsm((s, e) -> goto(s.state + e))", "{a: 1} + {b: {c: [1, 2]}}", "{a: 1, b: 2}.replace(m -> {a: 5})",
+		"[[0.5].binning(0, 1, 2, x -> x, x -> 1), [1.5].binning(0, 1, 2, x -> x, x -> 1)].collectBinning()", "[1, 5, 2].order(e -> e).map(e -> {v: e})", "\"a,b;c\".split(\",\")"} {
+		f, _, err := fg.Generate(src)
+		if err != nil {
+			fatal("C17 library values: %q: %v", src, err)
+		}
+		v, err := f.Eval()
+		if err != nil {
+			fatal("C17 library values: %q: %v", src, err)
+		}
+		c.Case("library-value|"+src, true)
+		c.Count("library-value")
+		out, err := exportJSON(v)
+		rp := map[string]any{"program": src, "exported": string(out)}
+		var d any
+		switch {
+		case err != nil:
+			c.Violation("json-export-error", "exporter returned an error for an error-free value: "+err.Error(), rp)
+		case !utf8.Valid(out):
+			c.Violation("json-invalid-utf8", "exported document is not valid UTF-8", rp)
+		case json.Unmarshal(out, &d) != nil:
+			c.Violation("json-invalid", "standard parser rejects the exported document", rp)
+		default:
+			if msg := observedSame(v, d); msg != "" {
+				c.Violation("json-differs-from-observers", "the decoded document is not what Iterate / Iter / ToString show: "+msg, rp)
+			}
+		}
+	}
+}
+
 func jsonSignature(out []byte, msg string) string {
 	// classifier: which character class broke the document
 	s := string(out)
@@ -112,6 +219,7 @@ func runC17(c *Ctx) {
 	for i := 0; i < n; i++ {
 		trees = append(trees, genVT(c.rng, 1+c.rng.Intn(5), strGen))
 	}
+	c17LibraryValues(c)
 
 	var reqs []string
 	var outs [][]byte
